@@ -11,11 +11,19 @@ for a in sys.argv[2:]:
 out = {}
 mpath = os.path.join(V, 'seeded', 'matrix.json')
 if os.path.exists(mpath): out = json.load(open(mpath))
+import shutil, tempfile
+# checks rewrite /verif/evidence on every run: keep the clean-tree evidence aside and put it back at the end
+_keep = tempfile.mkdtemp(prefix='evidence_keep_'); shutil.copytree(os.path.join(V, 'evidence'), os.path.join(_keep, 'evidence'))
+import atexit
+def _restore():
+    shutil.rmtree(os.path.join(V, 'evidence'), ignore_errors=True); shutil.copytree(os.path.join(_keep, 'evidence'), os.path.join(V, 'evidence')); shutil.rmtree(_keep, ignore_errors=True)
+atexit.register(_restore)
 assert subprocess.run(['git', '-C', '/repo', 'status', '--porcelain'], capture_output=True, text=True).stdout.strip() == '', '/repo is not clean'
 for d in sorted(glob.glob(os.path.join(V, 'seeded', 'C*_m*'))):
     name = os.path.basename(d)
     meta = json.load(open(os.path.join(d, 'meta.json')))
-    props = [meta['property']] + extra.get(name, [])
+    props = ([] if os.environ.get('ONLY_EXTRA') else [meta['property']]) + extra.get(name, [])
+    if not props: continue
     if subprocess.run(['git', '-C', '/repo', 'apply', os.path.join(d, 'patch.diff')]).returncode != 0:
         out.setdefault(name, {})['apply'] = 'FAILED'; continue
     try:
